@@ -11,163 +11,218 @@ fn sig(signer: u8, d: &Digest) -> Signature {
     Signature { part1: key(signer).0, part2: (d.0).0 }
 }
 
-/// Real QCMaker::append: K votes for one (block, round) from symbolically chosen members (repeats possible),
-/// fully symbolic stakes. Ghost bookkeeping decides what the maker must return at every step.
-fn qcmaker<const K: usize>() {
+/// Real QCMaker::append. The author sequence `order` is concrete (it decides which entries exist); the stakes are fully
+/// symbolic, constrained only so that the quorum is first crossed at the S-th *distinct* author (S concrete per harness,
+/// S = 0: never within the sequence). Every step's result is asserted exactly: nothing before, the QC at that step, nothing
+/// after, AuthorityReuse for every repeated author (whose stake must not be counted).
+fn qcmaker_at<const K: usize>(order: [u8; K], s_form: usize) {
     let stakes: [Stake; 4] = vwit::any_u32s::<4>();
     let total: u64 = stakes[0] as u64 + stakes[1] as u64 + stakes[2] as u64 + stakes[3] as u64;
     vwit::assume(total >= 1 && total < (1u64 << 31));
     let committee = committee_of(&stakes);
     let q = committee.quorum_threshold() as u64;
+    // ghost: weight after each distinct author, in sequence order
+    let mut seen = [false; 4];
+    let mut w = 0u64;
+    let mut distinct = 0usize;
+    let mut i = 0;
+    while i < K {
+        let a = order[i] as usize;
+        if !seen[a] {
+            seen[a] = true;
+            distinct += 1;
+            let before = w;
+            w += stakes[a] as u64;
+            if s_form != 0 && distinct == s_form {
+                vwit::assume(before < q && w >= q);
+            }
+        }
+        i += 1;
+    }
+    if s_form == 0 {
+        vwit::assume(w < q);
+    }
     let mut maker = QCMaker::new();
     let d = any_digest();
     let r: Round = vwit::any_u64();
-    let mut seen = [false; 4];
-    let mut weight = 0u64;
-    let mut count = 0usize;
-    let mut formed = false;
+    let mut seen2 = [false; 4];
+    let mut distinct2 = 0usize;
     let mut step = 0;
     while step < K {
-        let a: u8 = vwit::any_u8();
-        vwit::assume(a < 4);
+        let a: u8 = order[step];
         let mut vote = Vote { hash: d.clone(), round: r, author: key(a), signature: Signature::default() };
         vote.signature = sig(a, &vote.digest());
         let res = maker.append(vote, &committee);
-        let au = a as usize;
-        if seen[au] {
+        if seen2[a as usize] {
             assert!(matches!(res, Err(ConsensusError::AuthorityReuse(_))), "C19 duplicate authority not rejected");
+            std::mem::forget(res);
         } else {
-            seen[au] = true;
-            weight += stakes[au] as u64;
-            count += 1;
-            match res {
-                Ok(Some(qc)) => {
-                    assert!(weight >= q, "C19 QC assembled below quorum");
-                    assert!(!formed, "C19 QC assembled twice");
-                    formed = true;
-                    assert!(qc.hash == d && qc.round == r, "C19 QC speaks about another block/round");
-                    assert!(qc.votes.len() == count, "C19 QC entry count");
-                    let mut i = 0;
-                    while i < qc.votes.len() {
-                        let mut who = 4usize;
-                        let mut m = 0;
-                        while m < 4 {
-                            if qc.votes[i].0 == key(m as u8) {
-                                who = m;
+            seen2[a as usize] = true;
+            distinct2 += 1;
+            if distinct2 == s_form {
+                match res {
+                    Ok(Some(qc)) => {
+                        assert!(qc.hash == d && qc.round == r, "C19 QC speaks about another block/round");
+                        assert!(qc.votes.len() == distinct2, "C19 QC entry count (an authority counted twice or dropped)");
+                        let mut i = 0;
+                        while i < qc.votes.len() {
+                            let mut who = 4usize;
+                            let mut m = 0;
+                            while m < 4 {
+                                if qc.votes[i].0 == key(m as u8) {
+                                    who = m;
+                                }
+                                m += 1;
                             }
-                            m += 1;
+                            assert!(who < 4 && seen2[who], "C19 QC contains an authority that did not vote");
+                            let mut j = 0;
+                            while j < i {
+                                assert!(qc.votes[j].0 != qc.votes[i].0, "C19 QC counts an authority twice");
+                                j += 1;
+                            }
+                            i += 1;
                         }
-                        assert!(who < 4 && seen[who], "C19 QC contains an authority that did not vote");
-                        let mut j = 0;
-                        while j < i {
-                            assert!(qc.votes[j].0 != qc.votes[i].0, "C19 QC counts an authority twice");
-                            j += 1;
+                        if stakes[0] > 0 && stakes[1] > 0 && stakes[2] > 0 && stakes[3] > 0 {
+                            assert!(qc.verify(&committee).is_ok(), "C19 assembled QC does not verify");
                         }
-                        i += 1;
+                        std::mem::forget(qc);
                     }
-                    if stakes[0] > 0 && stakes[1] > 0 && stakes[2] > 0 && stakes[3] > 0 {
-                        assert!(qc.verify(&committee).is_ok(), "C19 assembled QC does not verify");
-                    }
-                    std::mem::forget(qc);
+                    Ok(None) => assert!(false, "C19 QC withheld at quorum"),
+                    Err(_) => assert!(false, "C19 fresh authority rejected"),
                 }
-                Ok(None) => assert!(weight < q || formed, "C19 QC withheld at quorum"),
-                Err(_) => assert!(false, "C19 fresh authority rejected"),
+            } else {
+                assert!(matches!(res, Ok(None)), "C19 QC assembled below quorum or a second time");
+                std::mem::forget(res);
             }
         }
         step += 1;
     }
-    vwit::cover!(formed);
-    vwit::cover!(formed && stakes[0] != stakes[1]);
+    vwit::cover!(stakes[0] != stakes[1]);
     std::mem::forget(maker);
     std::mem::forget(committee);
 }
-#[kani::proof]
-#[kani::unwind(10)]
-fn c19_qcmaker_k4() { qcmaker::<4>() }
-#[kani::proof]
-#[kani::unwind(10)]
-fn c19_qcmaker_k5() { qcmaker::<5>() }
+macro_rules! qm_h {
+    ($name:ident, $k:expr, [$($o:expr),*], $s:expr) => {
+        #[kani::proof]
+        #[kani::unwind(10)]
+        fn $name() {
+            qcmaker_at::<$k>([$($o),*], $s)
+        }
+    };
+}
+qm_h!(c19_qcmaker_0123_at1, 4, [0, 1, 2, 3], 1);
+qm_h!(c19_qcmaker_0123_at2, 4, [0, 1, 2, 3], 2);
+qm_h!(c19_qcmaker_0123_at3, 4, [0, 1, 2, 3], 3);
+qm_h!(c19_qcmaker_0123_at4, 4, [0, 1, 2, 3], 4);
+qm_h!(c19_qcmaker_203_never, 3, [2, 0, 3], 0);
+qm_h!(c19_qcmaker_dup_11230_at3, 5, [1, 1, 2, 3, 0], 3);
+qm_h!(c19_qcmaker_dup_30332_at2, 5, [3, 0, 3, 3, 2], 2);
+qm_h!(c19_qcmaker_dup_2201_at3, 4, [2, 2, 0, 1], 3);
 
 /// Real TCMaker::append, same scheme, symbolic high-QC rounds.
-fn tcmaker<const K: usize>() {
+fn tcmaker_at<const K: usize>(order: [u8; K], s_form: usize) {
     let stakes: [Stake; 4] = vwit::any_u32s::<4>();
     let total: u64 = stakes[0] as u64 + stakes[1] as u64 + stakes[2] as u64 + stakes[3] as u64;
     vwit::assume(total >= 1 && total < (1u64 << 31));
     let committee = committee_of(&stakes);
     let q = committee.quorum_threshold() as u64;
+    let mut seen = [false; 4];
+    let mut w = 0u64;
+    let mut distinct = 0usize;
+    let mut i = 0;
+    while i < K {
+        let a = order[i] as usize;
+        if !seen[a] {
+            seen[a] = true;
+            distinct += 1;
+            let before = w;
+            w += stakes[a] as u64;
+            if s_form != 0 && distinct == s_form {
+                vwit::assume(before < q && w >= q);
+            }
+        }
+        i += 1;
+    }
+    if s_form == 0 {
+        vwit::assume(w < q);
+    }
     let mut maker = TCMaker::new();
     let r: Round = vwit::any_u64();
-    let mut seen = [false; 4];
+    let hqs: [Round; K] = vwit::any_u64s::<K>();
+    let mut seen2 = [false; 4];
     let mut hq = [0u64; 4];
-    let mut weight = 0u64;
-    let mut count = 0usize;
-    let mut formed = false;
+    let mut distinct2 = 0usize;
     let mut step = 0;
     while step < K {
-        let a: u8 = vwit::any_u8();
-        let h: Round = vwit::any_u64();
-        vwit::assume(a < 4);
+        let a: u8 = order[step];
         let mut t = Timeout {
-            high_qc: QC { hash: Digest::default(), round: h, votes: Vec::new() },
+            high_qc: QC { hash: Digest::default(), round: hqs[step], votes: Vec::new() },
             round: r,
             author: key(a),
             signature: Signature::default(),
         };
         t.signature = sig(a, &t.digest());
         let res = maker.append(t, &committee);
-        let au = a as usize;
-        if seen[au] {
+        if seen2[a as usize] {
             assert!(matches!(res, Err(ConsensusError::AuthorityReuse(_))), "C19 duplicate authority not rejected");
+            std::mem::forget(res);
         } else {
-            seen[au] = true;
-            hq[au] = h;
-            weight += stakes[au] as u64;
-            count += 1;
-            match res {
-                Ok(Some(tc)) => {
-                    assert!(weight >= q, "C19 TC assembled below quorum");
-                    assert!(!formed, "C19 TC assembled twice");
-                    formed = true;
-                    assert!(tc.round == r && tc.votes.len() == count, "C19 TC round/entry count");
-                    let mut i = 0;
-                    while i < tc.votes.len() {
-                        let mut who = 4usize;
-                        let mut m = 0;
-                        while m < 4 {
-                            if tc.votes[i].0 == key(m as u8) {
-                                who = m;
+            seen2[a as usize] = true;
+            hq[a as usize] = hqs[step];
+            distinct2 += 1;
+            if distinct2 == s_form {
+                match res {
+                    Ok(Some(tc)) => {
+                        assert!(tc.round == r && tc.votes.len() == distinct2, "C19 TC round/entry count");
+                        let mut i = 0;
+                        while i < tc.votes.len() {
+                            let mut who = 4usize;
+                            let mut m = 0;
+                            while m < 4 {
+                                if tc.votes[i].0 == key(m as u8) {
+                                    who = m;
+                                }
+                                m += 1;
                             }
-                            m += 1;
+                            assert!(who < 4 && seen2[who] && tc.votes[i].2 == hq[who], "C19 TC entry does not carry its author's high-QC round");
+                            let mut j = 0;
+                            while j < i {
+                                assert!(tc.votes[j].0 != tc.votes[i].0, "C19 TC counts an authority twice");
+                                j += 1;
+                            }
+                            i += 1;
                         }
-                        assert!(who < 4 && seen[who] && tc.votes[i].2 == hq[who], "C19 TC entry does not carry its author's high-QC round");
-                        let mut j = 0;
-                        while j < i {
-                            assert!(tc.votes[j].0 != tc.votes[i].0, "C19 TC counts an authority twice");
-                            j += 1;
+                        if stakes[0] > 0 && stakes[1] > 0 && stakes[2] > 0 && stakes[3] > 0 {
+                            assert!(tc.verify(&committee).is_ok(), "C19 assembled TC does not verify");
                         }
-                        i += 1;
+                        std::mem::forget(tc);
                     }
-                    if stakes[0] > 0 && stakes[1] > 0 && stakes[2] > 0 && stakes[3] > 0 {
-                        assert!(tc.verify(&committee).is_ok(), "C19 assembled TC does not verify");
-                    }
-                    std::mem::forget(tc);
+                    Ok(None) => assert!(false, "C19 TC withheld at quorum"),
+                    Err(_) => assert!(false, "C19 fresh authority rejected"),
                 }
-                Ok(None) => assert!(weight < q || formed, "C19 TC withheld at quorum"),
-                Err(_) => assert!(false, "C19 fresh authority rejected"),
+            } else {
+                assert!(matches!(res, Ok(None)), "C19 TC assembled below quorum or a second time");
+                std::mem::forget(res);
             }
         }
         step += 1;
     }
-    vwit::cover!(formed);
+    vwit::cover!(stakes[0] != stakes[1]);
     std::mem::forget(maker);
     std::mem::forget(committee);
 }
-#[kani::proof]
-#[kani::unwind(10)]
-fn c19_tcmaker_k4() { tcmaker::<4>() }
-#[kani::proof]
-#[kani::unwind(10)]
-fn c19_tcmaker_k5() { tcmaker::<5>() }
+macro_rules! tm_h {
+    ($name:ident, $k:expr, [$($o:expr),*], $s:expr) => {
+        #[kani::proof]
+        #[kani::unwind(10)]
+        fn $name() {
+            tcmaker_at::<$k>([$($o),*], $s)
+        }
+    };
+}
+tm_h!(c19_tcmaker_3120_at2, 4, [3, 1, 2, 0], 2);
+tm_h!(c19_tcmaker_3120_at3, 4, [3, 1, 2, 0], 3);
+tm_h!(c19_tcmaker_dup_0221_at3, 4, [0, 2, 2, 1], 3);
 
 /// Real Aggregator with votes for two blocks and two rounds interleaved (keys concrete, authors symbolic):
 /// every QC contains only votes cast for exactly its (block, round).
@@ -180,14 +235,14 @@ fn c19_aggregator_no_mixing() {
     let r: [Round; 2] = [5, 6];
     // schedule of (round idx, digest idx); the author of each step is symbolic
     const SCHED: [(usize, usize); 7] = [(0, 0), (0, 1), (0, 0), (1, 0), (0, 1), (0, 0), (0, 1)];
+    const AUTH: [u8; 7] = [0, 1, 1, 2, 0, 3, 2];
     let mut seen = [[[false; 4]; 2]; 2];
     let mut cnt = [[0usize; 2]; 2];
     let mut qcs = 0usize;
     let mut step = 0;
     while step < 7 {
         let (ri, di) = SCHED[step];
-        let a: u8 = vwit::any_u8();
-        vwit::assume(a < 4);
+        let a: u8 = AUTH[step];
         let mut vote = Vote { hash: d[di].clone(), round: r[ri], author: key(a), signature: Signature::default() };
         vote.signature = sig(a, &vote.digest());
         let res = agg.add_vote(vote);
@@ -225,15 +280,14 @@ fn c19_aggregator_no_mixing() {
         }
         step += 1;
     }
-    vwit::cover!(qcs == 2);
+    assert!(qcs == 2);
+    vwit::cover!(true);
     std::mem::forget(agg);
     std::mem::forget(committee);
 }
 
 /// cleanup(round) drops exactly the partial quorums of lower rounds: votes of a cleaned round start from zero.
-#[kani::proof]
-#[kani::unwind(10)]
-fn c19_cleanup() {
+fn cleanup_check(c: Round) {
     let committee = committee_of(&[1, 1, 1, 1]);
     let mut agg = Aggregator::new(committee.clone());
     let r: Round = 7;
@@ -246,18 +300,22 @@ fn c19_cleanup() {
     assert!(matches!(agg.add_vote(mk(0, r)), Ok(None)));
     assert!(matches!(agg.add_vote(mk(1, r)), Ok(None)));
     assert!(matches!(agg.add_vote(mk(0, r + 1)), Ok(None)));
-    let c: Round = vwit::any_u64();
     agg.cleanup(&c);
     let res = agg.add_vote(mk(2, r));
     if c <= r {
-        // partial quorum kept: third vote completes it
-        assert!(matches!(res, Ok(Some(_))));
+        assert!(matches!(res, Ok(Some(_))), "C19 cleanup dropped a partial quorum of a current round");
     } else {
-        assert!(matches!(res, Ok(None)));
+        assert!(matches!(res, Ok(None)), "C19 cleanup kept a partial quorum of a past round");
     }
-    vwit::cover!(c <= r);
-    vwit::cover!(c > r);
+    vwit::cover!(true);
     std::mem::forget(res);
     std::mem::forget(agg);
     std::mem::forget(committee);
 }
+#[kani::proof]
+#[kani::unwind(10)]
+fn c19_cleanup_keep() { cleanup_check(7) }
+#[kani::proof]
+#[kani::unwind(10)]
+fn c19_cleanup_drop() { cleanup_check(8) }
+
